@@ -381,6 +381,74 @@ def periodic_cases(rng, tier):
     return out
 
 
+def api_variant_cases(rng, tier):
+    """What the coverage audit showed no case reached (design.d/C05.md, Coverage audit):
+      options = NULL; carquet_writer_create_file (the writer does not own the stream; buffered, unbuffered and
+      7-byte buffered streams; same bytes expected as through carquet_writer_create - the model tie compares them);
+      histories ending in carquet_writer_abort (nothing is claimed about the file: the run must not fault);
+      Thrift lists of 14 / 15 / 16 / 17 elements (the compact protocol switches to the long list header at 15:
+      schema elements = columns + 1, columns of a row group, row groups);
+      the options the writer accepts and does not act on (statistics off, page index, bloom filters, dictionary
+      modes, row_group_size, compression level) - the file must be the same valid file."""
+    out = []
+    cols = [fc.Column("a", "INT32"), fc.Column("b", "BYTE_ARRAY", "OPTIONAL"), fc.Column("c", "BOOLEAN", "OPTIONAL"),
+            fc.Column("d", "FIXED_LEN_BYTE_ARRAY", "REQUIRED", 3), fc.Column("e", "DOUBLE", "OPTIONAL")]
+
+    def table(ncol, nrows, ngroups, k):
+        sch = fc.Schema(cols[:ncol])
+        groups = []
+        for g in range(ngroups):
+            percol = []
+            for ci, c in enumerate(sch.columns):
+                rows = seq_rows(c, nrows, start=g * nrows)
+                if c.rep == "OPTIONAL":
+                    rows = with_nulls(rows, [(j + ci + k) % 3 != 0 for j in range(nrows)])
+                cut = (k + ci) % (nrows + 1)
+                percol.append([b for b in (rows[:cut], rows[cut:]) if b or nrows == 0])
+            groups.append(percol)
+        return sch, groups
+
+    k = 0
+    for ncol, nrows, ngroups in ((1, 3, 1), (3, 9, 2), (5, 17, 3), (2, 0, 1)):
+        sch, groups = table(ncol, nrows, ngroups, k)
+        out.append(history(sch, fc.Options(null_options=True), groups, name=f"api:null-options:{k}"))
+        for codec in fc.CODECS:
+            for buf in (None, 0, 7):
+                if tier == "quick" and (k + len(out)) % 3 and buf is not None:
+                    continue
+                c = history(sch, fc.Options(codec=codec, page_size=(1, 64, 1 << 20)[k % 3]), groups,
+                            name=f"api:create_file:{codec}:buf={buf}:{k}")
+                c.sink = fc.SinkSpec(buf=buf, log=False)
+                out.append(c)
+        c = history(sch, fc.Options(null_options=True), groups, name=f"api:create_file:null-options:{k}")
+        c.sink = fc.SinkSpec(log=False)
+        out.append(c)
+        for how in ("abort-instead-of-close", "abort-after-new-row-group"):
+            c = history(sch, fc.Options(codec=fc.CODECS[k % len(fc.CODECS)], page_size=1), groups, name=f"api:{how}:{k}")
+            c.ops = c.ops[:-1] + ([fc.WriteOp("new_row_group")] if how.endswith("group") else []) + [fc.WriteOp("abort")]
+            out.append(c)
+            c2 = fc.Case(c.schema, c.options, list(c.ops), name=c.name + ":create_file", sink=fc.SinkSpec(log=False))
+            out.append(c2)
+        k += 1
+    # list headers: short form up to 14 elements, long form from 15
+    for n in (13, 14, 15, 16, 17):
+        sch = fc.Schema([fc.Column(f"c{i}", ("INT32", "INT64", "BOOLEAN")[i % 3], "OPTIONAL" if i % 4 == 1 else "REQUIRED") for i in range(n)])
+        groups = [[[with_nulls(seq_rows(c, 2, start=g), [True, c.rep == "REQUIRED"])] for c in sch.columns] for g in range(2)]
+        out.append(history(sch, fc.Options(codec=fc.CODECS[n % len(fc.CODECS)]), groups, name=f"lists:columns:{n}"))
+        one = fc.Schema([fc.Column("v", "INT32")])
+        out.append(history(one, fc.Options(codec=fc.CODECS[n % len(fc.CODECS)]), [[[[i32(g)]]] for g in range(n)], name=f"lists:row-groups:{n}"))
+    sch = fc.Schema([fc.Column(f"c{i}", "INT32") for i in range(16)])
+    out.append(history(sch, fc.Options(), [[[[i32(g * 16 + i)]] for i in range(16)] for g in range(16)], name="lists:16x16"))
+    # options the writer accepts without acting on them
+    sch, groups = table(5, 17, 2, 1)
+    for name, kw in (("stats-off", {"stats": False}), ("page-index", {"page_index": True}), ("bloom", {"bloom": True}),
+                     ("dict-plain", {"dict_enc": "PLAIN"}), ("dict-rle", {"dict_enc": "RLE_DICTIONARY", "dict_page_size": 1}),
+                     ("row-group-size-1", {"row_group_size": 1}), ("level-9", {"level": 9, "codec": "GZIP"}),
+                     ("level-19", {"level": 19, "codec": "ZSTD"}), ("all", {"stats": False, "page_index": True, "bloom": True, "level": 3, "codec": "SNAPPY"})):
+        out.append(history(sch, fc.Options(**{"page_size": 64, **kw}), groups, name=f"options:{name}"))
+    return out
+
+
 LOGICAL_COLUMNS = [
     # (physical type, type_length, logical annotation): members with zero / false parameters included - a writer that
     # leaves out "default" values drops REQUIRED fields of DecimalType / IntType / TimeType / TimestampType
@@ -390,7 +458,7 @@ LOGICAL_COLUMNS = [
     ("INT32", 0, "TIME:0:MILLIS"), ("INT32", 0, "TIME:1:MILLIS"), ("INT64", 0, "TIME:0:MICROS"), ("INT64", 0, "TIME:1:NANOS"),
     ("INT64", 0, "TIMESTAMP:0:MILLIS"), ("INT64", 0, "TIMESTAMP:1:MICROS"), ("INT64", 0, "TIMESTAMP:0:NANOS"),
     ("BYTE_ARRAY", 0, "STRING"), ("BYTE_ARRAY", 0, "ENUM"), ("BYTE_ARRAY", 0, "JSON"), ("BYTE_ARRAY", 0, "BSON"),
-    ("INT32", 0, "DATE"), ("FIXED_LEN_BYTE_ARRAY", 16, "UUID"), ("FIXED_LEN_BYTE_ARRAY", 2, "FLOAT16"),
+    ("INT32", 0, "DATE"), ("FIXED_LEN_BYTE_ARRAY", 16, "UUID"), ("FIXED_LEN_BYTE_ARRAY", 2, "FLOAT16"), ("INT32", 0, "NULL"),
 ]
 
 
@@ -425,7 +493,7 @@ def many_row_groups(n):
 
 
 def gen_cases(tier, rng):
-    cases = targeted_cases(rng, tier) + boundary_cases(rng, tier) + incompressible_cases(rng, tier) + periodic_cases(rng, tier) + logical_cases(rng, tier)
+    cases = targeted_cases(rng, tier) + boundary_cases(rng, tier) + incompressible_cases(rng, tier) + periodic_cases(rng, tier) + logical_cases(rng, tier) + api_variant_cases(rng, tier)
     if tier == "thorough":
         # RowGroup.ordinal is an i16: from the 32769th row group on it must be left out, not wrapped (fixed fa2774f)
         cases.append(many_row_groups(32770))
@@ -472,11 +540,17 @@ def write_all(cases, twice=False):
     heap memory: a byte of the file that comes from uninitialised or address-dependent memory differs."""
     def go(env):
         paths = [fc.tmppath() for _ in cases]
-        sts = fc.write_cases(list(zip(cases, paths)), env=env)
+        scripts = []
+        for c, p in zip(cases, paths):
+            sc = fc.Script(c.name).write(c, p)
+            if c.sink is not None:              # carquet_writer_create_file: the bytes the stream accepted
+                sc.raw("IMG_FROM_SINK", f"IMG_SAVE {p}")
+            scripts.append(sc)
+        sts = [fc.parse_write(o) for o in fc.run_scripts(scripts, env=env)]
         out = []
-        for p, st in zip(paths, sts):
+        for c, p, st in zip(cases, paths, sts):
             b = None
-            if st.exists and os.path.exists(p):
+            if (st.exists or (c.sink is not None and st.close_ok())) and os.path.exists(p):
                 b = Path(p).read_bytes()
             if os.path.exists(p):
                 os.unlink(p)
@@ -523,6 +597,132 @@ def c01_compare(case, d):
     return None
 
 
+def repeated_histories(rng, n):
+    """Write histories with a REPEATED leaf column (a list of values per row, lists may be empty): level entries
+    (def, rep, value) cut into write_batch calls anywhere - also inside a list -, with explicit levels, with
+    rep_levels = NULL (every entry its own row) or both NULL; optionally a second REQUIRED / OPTIONAL column with one
+    entry per row; several row groups.  Returns [(name, columns, options, lines(path), expected)] where expected is
+    [row group][column] -> (defs, reps, values) and the row counts."""
+    out = []
+    types = [("INT32", 0), ("INT64", 0), ("BOOLEAN", 0), ("BYTE_ARRAY", 0), ("FIXED_LEN_BYTE_ARRAY", 3), ("DOUBLE", 0), ("FLOAT", 0)]
+    for k in range(n):
+        t, tl = types[k % len(types)]
+        rcol = fc.Column("r", t, "REPEATED", tl)
+        other = [None, fc.Column("x", "INT32", "REQUIRED"), fc.Column("y", "BYTE_ARRAY", "OPTIONAL")][k % 3]
+        first = (k // 3) % 2 == 0 or other is None             # the REPEATED column is column 0 (row reference) or 1
+        cols = [rcol] + ([other] if other else []) if first else [other, rcol]
+        ri = cols.index(rcol)
+        opt = fc.Options(codec=fc.CODECS[k % len(fc.CODECS)], page_size=[1, 48, 1 << 20][(k // 2) % 3])
+        mode = ["levels", "levels", "levels", "no-reps", "no-levels"][k % 5]
+        lines, expected, rows_per_rg = [], [], []
+        for g in range(1 + k % 3):
+            nrows = rng.choice([1, 2, 3, 9, 17, 40]) if k % 11 else 0
+            ents, vcount = [], 0
+            for _ in range(nrows):
+                ln = 1 if mode != "levels" else rng.choice([0, 0, 1, 1, 2, 3, 5, 9])
+                if mode == "no-reps" and rng.random() < 0.3:
+                    ln = 0
+                if ln == 0:
+                    ents.append((0, 0, None))
+                for j in range(ln):
+                    ents.append((1, 0 if j == 0 else 1, fc.gen_value(rng, rcol, long_strings=False)))
+            # cut the entries into batches anywhere
+            cuts = sorted({rng.randrange(1, len(ents)) for _ in range(rng.choice([0, 1, 2, 5]))}) if len(ents) > 1 else []
+            percol = {}
+            for a, b in zip([0] + cuts, cuts + [len(ents)]):
+                part = ents[a:b]
+                vals = [v for _, _, v in part if v is not None]
+                defs = "".join(str(d) for d, _, _ in part) or "E"
+                reps = "".join(str(r) for _, r, _ in part) or "E"
+                if mode == "no-reps":
+                    reps = "-"
+                if mode == "no-levels":
+                    defs = reps = "-"
+                percol.setdefault(ri, []).append(f"W {ri} {len(part)} {defs} {reps} {len(vals)} {fc._vals_token(rcol, vals)}")
+            exp = {ri: ([d for d, _, _ in ents], [r for _, r, _ in ents], [v for _, _, v in ents if v is not None])}
+            if other:
+                oi = cols.index(other)
+                rows = [fc.gen_value(rng, other, long_strings=False) if (other.rep == "REQUIRED" or rng.random() < 0.7) else None for _ in range(nrows)]
+                vals = [v for v in rows if v is not None]
+                defs = "".join("0" if v is None else "1" for v in rows) if other.rep == "OPTIONAL" else "-"
+                if nrows:
+                    percol.setdefault(oi, []).append(f"W {oi} {nrows} {defs or 'E'} - {len(vals)} {fc._vals_token(other, vals)}")
+                exp[oi] = ([0 if v is None else 1 for v in rows] if other.rep == "OPTIONAL" else [], [], vals)
+            order = sorted(percol) if k % 2 else sorted(percol, reverse=True)
+            for ci in order:
+                lines += percol[ci]
+            lines.append("NEWRG")
+            if nrows:
+                expected.append([exp[i] for i in range(len(cols))])
+                rows_per_rg.append(nrows)
+        lines[-1] = "CLOSE"
+        out.append((f"repeated:{k}:{t}:{mode}", cols, opt, lines, (expected, rows_per_rg)))
+    return out
+
+
+def check_repeated(rep, rng, tier):
+    """C05 on REPEATED leaf columns (outside C01's statement and outside the writer model): every file is written
+    twice, validated by the independent reader, and its levels and values per chunk are compared with the entries
+    written; row counts are the numbers of lists.  Before the repair (findings.d/C05.json, repeated-leaf-levels) such
+    a column was written with repetition levels but without definition levels: no reader, carquet's included, could
+    decode it."""
+    import pq
+    hist = repeated_histories(rng, 70 if tier == "quick" else 700)
+
+    def go(env):
+        paths = [fc.tmppath() for _ in hist]
+        scripts = []
+        for (name, cols, opt, lines, _), p in zip(hist, paths):
+            sc = fc.Script(name)
+            for c in cols:
+                sc.raw(f"COL {c.name.encode().hex()} {c.ptype} {c.rep} {c.type_length}")
+            sc.raw(opt.line(), f"WOPEN path {p}", *lines)
+            scripts.append(sc)
+        outs = fc.run_scripts(scripts, env=env)
+        res = []
+        for o, p in zip(outs, paths):
+            st = fc.parse_write(o)
+            b = Path(p).read_bytes() if os.path.exists(p) else None
+            if os.path.exists(p):
+                os.unlink(p)
+            res.append((st, b, list(scripts[len(res)].lines)))
+        return res
+    first, second = go(_asan_env(190)), go(_asan_env(66))
+    n_ok = 0
+    for (name, cols, opt, lines, (expected, rows_per_rg)), (st, data, script), (st2, data2, _) in zip(hist, first, second):
+        rj = {"kind": "repeated", "name": name, "script": script}
+        rep.count(("c05-repeated", "\n".join(l for l in script if not l.startswith("WOPEN"))), nontrivial=bool(rows_per_rg))
+        if st.fault or st2.fault:
+            rep.violation(f"the writer died on a history with a REPEATED column ({name}): {(st.fault or st2.fault).get('summary')}", rj)
+            continue
+        if not st.close_ok():
+            continue
+        if data is None:
+            rep.violation(f"close returned OK but no file exists ({name})", rj)
+            continue
+        pf = pq.read_file(data)
+        errs = [str(v) for v in pf.validate() if v.severity == "error" or v.clause in C05_ERROR_WARNINGS]
+        if errs or pf.fatal:
+            rep.violation(f"independent reader rejects a file with a REPEATED column the writer reported complete ({name}): " + "; ".join(errs[:3]), rj)
+            continue
+        got = [[(list(d), list(r), list(v)) for d, r, v in rg] for rg in pf.levels()]
+        got = [rg for rg, n in zip(got, pf.rg_rows()) if n]
+        want = [[(list(d), list(r) if cols[i].rep == "REPEATED" else [], list(v)) for i, (d, r, v) in enumerate(rg)] for rg in expected]
+        view = lambda t: [[(d if cols[i].rep != "REQUIRED" else [], r if cols[i].rep == "REPEATED" else [], v)
+                           for i, (d, r, v) in enumerate(rg)] for rg in t]
+        if view(got) != view(want):
+            rep.violation(f"independent reader recovers other levels / values than were written ({name})", rj)
+            continue
+        if [n for n in pf.rg_rows() if n] != rows_per_rg or pf.num_rows() != sum(rows_per_rg):
+            rep.violation(f"row counts {pf.rg_rows()} / {pf.num_rows()}, {rows_per_rg} lists were written ({name})", rj)
+            continue
+        if list(st) != list(st2) or data != data2:
+            rep.violation(f"two writes of the same history with a REPEATED column differ ({name})", rj)
+            continue
+        n_ok += 1
+    rep.cov.setdefault("input_distribution", {})["repeated_column_files_validated"] = n_ok
+
+
 def check_limits(rep, which):
     """The writer stays inside the limits of carquet's own footer parser (fixed de6d388): 100001 row groups of one
     row - the calls for the 100001st are refused (INVALID_METADATA), close still returns OK, and the file holds the
@@ -551,6 +751,30 @@ def check_limits(rep, which):
         if diff:
             rep.violation(f"{n + 1} one-row row groups, calls refused: {len(refused)}; close OK; reading the file back: {diff}", cj)
     rep.cov.setdefault("input_distribution", {})["limit_row_groups"] = {"written": n + 1, "refused_calls": len(refused)}
+    # schema width: 9999 columns fit (10000 schema elements with the root), 10000 are refused at creation
+    wide = {}
+    for ncol in (9999, 10000):
+        sch = fc.Schema([fc.Column(f"c{i}", "INT32") for i in range(ncol)])
+        case = history(sch, fc.Options(), [[[[i32(i)]] for i in range(ncol)]], name=f"limit:{ncol}-columns")
+        (st, data), = write_all([case])
+        cj = {"kind": "limit", "columns": ncol}
+        if st.fault:
+            rep.violation(f"the writer died on a schema of {ncol} columns: {st.fault.get('summary')}", cj)
+            continue
+        wide[ncol] = "created" if (st and st[0] == "create OK") else (st[0] if st else "?")
+        if not st.close_ok():
+            continue                              # refused: nothing was reported complete
+        if data is None:
+            rep.violation(f"{ncol} columns: close returned OK but no file exists", cj)
+        elif which == "C05":
+            bad = c05_check(case, data)
+            if bad:
+                rep.violation(f"independent reader rejects the file with {ncol} columns: " + "; ".join(t for _, t in bad[:3]), cj)
+        else:
+            diff = c01_compare(case, fc.dump(data, "stdio", True, 1 << 20))
+            if diff:
+                rep.violation(f"{ncol} columns, every call OK; reading the file back: {diff}", cj)
+    rep.cov["input_distribution"]["limit_columns"] = wide
 
 
 def logical_want(spec):
@@ -651,8 +875,8 @@ MODEL_CODECS = ("UNCOMPRESSED", "SNAPPY", "LZ4")      # codecs whose compressor 
 def model_line(case):
     """The extracted writer model's input line for `case` (ocaml/run_writer.ml)."""
     o = case.options
-    if any(c.logical for c in case.schema.columns):
-        return None                           # (the model's schema has no logical types)
+    if any(c.logical or c.rep not in ("REQUIRED", "OPTIONAL") for c in case.schema.columns):
+        return None                           # (the model's schema has no logical types and no REPEATED columns)
     # (the driver's OPT line cannot express an empty created_by: "-" = NULL pointer = the library's default)
     cb = "NULL" if (not o.created_by or o.null_options) else o.created_by.encode().hex()
     page = (1 << 20) if o.null_options else o.page_size
